@@ -33,7 +33,13 @@ func (pass *DisjunctionWithNullToOptional) Process(schemas []*ast.Schema) ([]*as
 	return visitor.VisitSchemas(schemas)
 }
 
-func (pass *DisjunctionWithNullToOptional) processDisjunction(_ *Visitor, _ *ast.Schema, def ast.Type) (ast.Type, error) {
+func (pass *DisjunctionWithNullToOptional) processDisjunction(visitor *Visitor, schema *ast.Schema, def ast.Type) (ast.Type, error) {
+	// disjunctions nested within the branches have to be processed too
+	def, err := visitor.VisitDisjunctionBranches(schema, def)
+	if err != nil {
+		return ast.Type{}, err
+	}
+
 	disjunction := def.AsDisjunction()
 
 	if len(disjunction.Branches) != 2 || !disjunction.Branches.HasNullType() {
